@@ -195,6 +195,33 @@ impl Hash for KHash {
     }
 }
 
+/// Identity field of `Ent`. While `COLLIDE` is set (per case, before the database is created) all
+/// values hash alike, so that structs whose identity values differ meet in the same identity-map
+/// entry and take the "identity fields changed: bump the generation" path of re-creation.
+#[derive(Clone, Copy, PartialEq, Eq, Debug)]
+pub struct IdHash(pub u16);
+
+// SAFETY: `IdHash` contains no database-lifetime references.
+unsafe impl salsa::SalsaValue for IdHash {}
+
+pub static COLLIDE: std::sync::atomic::AtomicBool = std::sync::atomic::AtomicBool::new(false);
+
+impl Hash for IdHash {
+    fn hash<H: Hasher>(&self, state: &mut H) {
+        if COLLIDE.load(Ordering::Relaxed) {
+            0u16.hash(state)
+        } else {
+            self.0.hash(state)
+        }
+    }
+}
+
+/// The second identity field is a function of the first, so a struct whose fields are a mix of two
+/// creations is recognisable.
+pub fn ident2_of(ident: u16) -> u16 {
+    ident.wrapping_mul(3).wrapping_add(1)
+}
+
 // ---------------------------------------------------------------- database
 
 #[salsa::db]
@@ -378,7 +405,9 @@ pub struct SymR<'db> {
 #[salsa::tracked]
 pub struct Ent<'db> {
     #[returns(copy)]
-    pub ident: u16,
+    pub ident: IdHash,
+    #[returns(copy)]
+    pub ident2: IdHash,
     #[tracked]
     pub t0: V,
     #[tracked]
@@ -666,7 +695,8 @@ fn body_maker<'db>(db: &'db dyn Hdb, k: NodeKey) -> Vec<Ent<'db>> {
         let tg = (FnK::Maker as u32) * 1024 + (n as u32 * 8 + out.len() as u32) % 1024;
         let ent = Ent::new(
             db,
-            ident,
+            IdHash(ident),
+            IdHash(ident2_of(ident)),
             V::new(ctx, tg, t0),
             V::new(ctx, tg, t1),
             V::new(ctx, tg, t2),
@@ -756,7 +786,11 @@ pub fn ent_of<'db>(db: &'db dyn Hdb, m: usize, i: usize) -> Option<Ent<'db>> {
 
 pub fn ent_field<'db>(db: &'db dyn Hdb, e: Ent<'db>, f: Fld) -> u16 {
     match f {
-        Fld::Ident => e.ident(db),
+        Fld::Ident => {
+            let (a, b) = (e.ident(db).0, e.ident2(db).0);
+            // identity fields of two different creations mixed in one struct: make it visible
+            if b == ident2_of(a) { a } else { 0xFFFE }
+        }
         Fld::T0 => e.t0(db).v,
         Fld::T1 => e.t1(db).v,
         Fld::T2 => e.t2(db).v,
